@@ -386,6 +386,12 @@ def sizes_opts_term(pairs):
     return ct.lst(sorted(out, key=lambda t: 0 if t.startswith('(OptPC') else 1))
 
 
+def abbr_term(a):
+    pairs = lambda ps: ct.lst([f'({enc(x)}, {enc(y)})' for x, y in ps])
+    return ('(mkAbbr ' + ct.lst([f'({i + 1}%positive, {pairs(ps)})' for i, ps in enumerate(a['recs'])]) + ' ' + pairs(a['rv']) + ' '
+            + ct.lst([f'{k}%positive' for k in a['kept']]) + ' ' + pairs(a['new']) + ')')
+
+
 def step_term(st, allowed):
     after, calls = st['after'], st['calls']
     si = st.get('sizes_in')
@@ -393,7 +399,8 @@ def step_term(st, allowed):
     ins = ct.lst([sizes_opts_term(c['sizes']) for c in calls if c.get('sizes') is not None])
     return (f"(mkMStep {ct.lst([enc(a) for a in allowed])} {'None' if after is None else '(Some ' + srecs(after) + ')'} "
             + ct.lst([call_term(c) for c in calls]) + ' ' + ('[]' if after is None else nonstmts(after)) + ' '
-            + ct.lst([us_term(u) for u in st['updates']]) + ' ' + sizes_in + ' ' + ins + ' ' + ct.boolean(st.get('reread', True)) + ')')
+            + ct.lst([us_term(u) for u in st['updates']]) + ' ' + sizes_in + ' ' + ins + ' ' + ct.boolean(st.get('reread', True))
+            + ' ' + ct.lst([abbr_term(a) for a in st.get('abbr', [])]) + ')')
 
 
 def mcase_term(spec, out):
@@ -408,6 +415,15 @@ M_ORACLE = {14: TAGS[14], 15: TAGS[15], 16: TAGS[16], 18: 'model.code differs fr
             22: 're-reading the code after successive edits of a code record does not give the in-memory statements'}
 
 
+def open_finding(ctx, fid):
+    """The staged entry (known_findings.d, read last) replaces the committed one with the same id."""
+    last = None
+    for f in ctx.findings:
+        if f['id'] == fid:
+            last = f
+    return last if last is not None and last.get('status') == 'open' else None
+
+
 def classify_model(ctx, spec, out, tags, report=True):
     """tags of one mcase (offset by 1000*step).  Returns a list of statuses, one per step."""
     steps = [{'name': 'update_source'}] + out['edits'] + out.get('history', [])
@@ -420,7 +436,7 @@ def classify_model(ctx, spec, out, tags, report=True):
     for k in range(nsteps):
         ts = {t - 1000 * k for t in tags if 1000 * k <= t < 1000 * (k + 1)}
         label = steps[k]['name']
-        corr = sorted(ts & {7, 10, 13, 21})
+        corr = sorted(ts & {7, 10, 13, 21, 25})
         status = 'ok'
         fail = None
         if 18 in ts:
@@ -445,7 +461,7 @@ def classify_model(ctx, spec, out, tags, report=True):
                 # (217, and no disagreement 21) and nothing else differs (24)
                 if 217 in ts and 21 not in ts and 24 not in ts and not regroup and not abbr:
                     expl = ['C03-SIZES-APPEND']
-                if not all(ctx.open_finding(f) for f in expl):
+                if not all(open_finding(ctx, f) for f in expl):
                     expl = []
             elif fail in (14, 15):
                 if regroup and not abbr and 19 not in ts:
@@ -454,7 +470,7 @@ def classify_model(ctx, spec, out, tags, report=True):
                     expl = [abbr_id]
                 elif abbr and regroup and 20 not in ts:
                     expl = ['C03-REPLACE-ALL-REGROUP', abbr_id]
-                if not all(ctx.open_finding(f) for f in expl):
+                if not all(open_finding(ctx, f) for f in expl):
                     expl = []
             if expl:
                 for fid in expl:
@@ -525,7 +541,7 @@ def gen_tables_gate(ctx):
 
 def finding_probes(ctx):
     """Replay the stored witness of every open finding on the real code (all C03 findings are model-level)."""
-    open_f = [f for f in ctx.findings if f.get('status') == 'open']
+    open_f = [f for f in {f['id']: f for f in ctx.findings}.values() if open_finding(ctx, f['id'])]
     if not open_f:
         return
     specs = [f['witness'] for f in open_f]
@@ -620,6 +636,7 @@ def run(ctx):
         'steps_by_status': mstat, 'real_edit_method_calls_compared': ncalls,
         'real_update_statements_calls_compared': sum(len(st['updates']) for _, o in kept for st in allsteps(o)),
         'history_steps': sum(len(o.get('history', [])) for _, o in kept),
+        'real_update_abbr_record_calls_compared': sum(len(st.get('abbr', [])) for _, o in kept for st in allsteps(o)),
         'boundary_models': [s['boundary'] for s, _ in kept if 'boundary' in s],
         'edit_exceptions': sum(1 for _, o in kept for e in o['edits'] + o.get('history', []) if e['exc']),
     }
